@@ -72,6 +72,7 @@ func c12FakeJWT(x *h.Ctx, header, payload map[string]any, unsigned bool) string 
 }
 
 type c12Built struct {
+	label string // for messages: wallet position and id
 	spec  c12Cred
 	vc    vc.VerifiableCredential
 	view  any // what a path is evaluated against (decoded JSON), built from the spec
@@ -96,11 +97,13 @@ func c12Build(x *h.Ctx, c c12Cred) c12Built {
 	case "ldp_vc":
 		doc := map[string]any{
 			"@context":          ctx,
-			"id":                c.ID,
 			"type":              types,
 			"issuer":            c.Issuer,
 			"issuanceDate":      c12Date,
 			"credentialSubject": c12SubjectWithID(c),
+		}
+		if c.ID != "" {
+			doc["id"] = c.ID
 		}
 		if c.Proof != "" {
 			doc["proof"] = map[string]any{"type": c.Proof, "verificationMethod": c.Issuer + "#k", "proofPurpose": "assertionMethod", "created": c12Date, "jws": "e30..c2ln"}
@@ -110,15 +113,22 @@ func c12Build(x *h.Ctx, c c12Cred) c12Built {
 		b.facts = c12CredFacts{format: "ldp_vc", proofType: c.Proof}
 	case "jwt_vc":
 		payload := map[string]any{
-			"iss": c.Issuer, "sub": c12Holder, "jti": c.ID, "nbf": c12DateUnix,
+			"iss": c.Issuer, "sub": c12Holder, "nbf": c12DateUnix,
 			"vc": map[string]any{"@context": ctx, "type": types, "credentialSubject": c12SubjectWithID(c)},
+		}
+		if c.ID != "" {
+			payload["jti"] = c.ID
 		}
 		b.raw = c12FakeJWT(x, map[string]any{"alg": c.Proof, "typ": "JWT", "kid": c.Issuer + "#k"}, payload, c.NoSig)
 		// JWT-VCs are matched on their decoded JSON form, in which credentialSubject and type stay arrays
-		b.view = c12Norm(map[string]any{
-			"@context": ctx, "id": c.ID, "type": types, "issuer": c.Issuer, "issuanceDate": c12Date,
+		view := map[string]any{
+			"@context": ctx, "type": types, "issuer": c.Issuer, "issuanceDate": c12Date,
 			"credentialSubject": []any{c12SubjectWithID(c)},
-		})
+		}
+		if c.ID != "" {
+			view["id"] = c.ID
+		}
+		b.view = c12Norm(view)
 		b.facts = c12CredFacts{format: "jwt_vc", alg: c.Proof, unsigned: c.NoSig}
 	default:
 		x.Fatalf("unknown credential format %q", c.Fmt)
@@ -247,17 +257,40 @@ func c12RunCase(x *h.Ctx, c c12Case) {
 	}
 
 	// ---- fixture: wallet
+	// Credentials are identified by content, never by id: two credentials are the same one iff their bytes are equal
+	// (an exact duplicate is legitimately de-duplicated); credentials may share an id or have none.
 	var built []c12Built
-	byID := map[string]int{}
+	byRaw := map[string]int{} // raw -> first wallet index with these bytes (the canonical one)
+	canon := make([]int, len(c.Wallet))
 	var creds []vc.VerifiableCredential
+	idUsers := map[string][]int{}
 	for i, spec := range c.Wallet {
-		if _, dup := byID[spec.ID]; dup {
-			x.Fatalf("duplicate credential id in wallet")
-		}
 		b := c12Build(x, spec)
-		byID[spec.ID] = i
+		b.label = fmt.Sprintf("#%d(%s)", i, spec.ID)
+		if first, dup := byRaw[b.raw]; dup {
+			canon[i] = first
+			x.Class("wallet:exact-duplicate")
+		} else {
+			byRaw[b.raw] = i
+			canon[i] = i
+			if spec.ID == "" {
+				x.Class("wallet:credential-without-id")
+			} else {
+				idUsers[spec.ID] = append(idUsers[spec.ID], i)
+			}
+		}
 		built = append(built, b)
 		creds = append(creds, b.vc)
+	}
+	sharedID := false
+	for _, users := range idUsers {
+		if len(users) > 1 {
+			sharedID = true
+			x.Class("wallet:shared-id-different-content")
+			if built[users[0]].spec.Fmt != built[users[1]].spec.Fmt {
+				x.Class("wallet:shared-id-across-formats")
+			}
+		}
 	}
 
 	// ---- reference: satisfaction matrix
@@ -297,6 +330,47 @@ func c12RunCase(x *h.Ctx, c c12Case) {
 		}
 	}
 	exists, decided, undecidedWhy := ref.complete(avail)
+	// shapes in which credential identity matters: a group whose descriptors are served by different credentials that
+	// share an id; requirements over a group that need at least two distinct credentials
+	if sharedID {
+		groups := map[string]bool{}
+		for _, d := range ref.Descriptors {
+			for _, g := range d.Group {
+				groups[g] = true
+			}
+		}
+		for g := range groups {
+			members := ref.groupMembers(g)
+			for ai, da := range members {
+				for _, db := range members[ai+1:] {
+					for ca := range built {
+						for cb := range built {
+							if canon[ca] != canon[cb] && built[ca].spec.ID != "" && built[ca].spec.ID == built[cb].spec.ID &&
+								sat[c12DescIndex(ref, da.ID)][ca].ok && sat[c12DescIndex(ref, db.ID)][cb].ok {
+								x.Class("shared-id-credentials-serve-different-descriptors-of-one-group")
+							}
+						}
+					}
+				}
+			}
+		}
+	}
+	var needTwo func(r *c12RefReq)
+	needTwo = func(r *c12RefReq) {
+		if r.From != "" {
+			n := len(ref.groupMembers(r.From))
+			lo, _, _ := c12Bounds(r)
+			if n >= 2 && (r.Rule == "all" || lo >= 2) {
+				x.Class("req:group-needs>=2-distinct-credentials")
+			}
+		}
+		for _, n := range r.FromNested {
+			needTwo(n)
+		}
+	}
+	for _, r := range ref.Reqs {
+		needTwo(r)
+	}
 	if errOK {
 		decided = false
 		undecidedWhy = "documented-error-possible"
@@ -394,13 +468,9 @@ func c12RunCase(x *h.Ctx, c c12Case) {
 		if m.Path != wantPath {
 			x.Violate("O1-mapping-path", "mapping %d has path %q, want %q", i, m.Path, wantPath)
 		}
-		if selected[i].ID == nil {
-			x.Violate("O1-selected-unknown", "selected credential %d has no id", i)
-			return
-		}
-		ci, ok := byID[selected[i].ID.String()]
-		if !ok || built[ci].raw != selected[i].Raw() {
-			x.Violate("O1-selected-unknown", "selected credential %d (%s) is not a wallet credential", i, selected[i].ID)
+		ci, ok := byRaw[selected[i].Raw()]
+		if !ok {
+			x.Violate("O1-selected-unknown", "selected credential %d is not a wallet credential", i)
 			return
 		}
 		distinct[ci] = true
@@ -419,7 +489,7 @@ func c12RunCase(x *h.Ctx, c c12Case) {
 		di := c12DescIndex(ref, m.Id)
 		if s := sat[di][ci]; !s.ok && !s.errOK {
 			x.Violate("O1-mapped-credential-does-not-satisfy:"+c12WhyNot(ref, d, built[ci]), "descriptor %q is mapped to credential %s which does not satisfy it (%d of %d conditions fail)\ncredential view: %s",
-				m.Id, built[ci].spec.ID, s.fails, s.conds, c12MustJSON(x, built[ci].view))
+				m.Id, built[ci].label, s.fails, s.conds, c12MustJSON(x, built[ci].view))
 		}
 		for dj := range ref.Descriptors {
 			if sat[dj][ci].ok {
@@ -505,7 +575,7 @@ func c12RunCase(x *h.Ctx, c c12Case) {
 		var rest []vc.VerifiableCredential
 		restAvail := map[string]bool{}
 		for ci, b := range built {
-			if !distinct[ci] {
+			if !distinct[canon[ci]] {
 				rest = append(rest, b.vc)
 				for di, d := range ref.Descriptors {
 					if sat[di][ci].ok {
@@ -633,8 +703,8 @@ func c12RunCase(x *h.Ctx, c c12Case) {
 		}
 		for id, ci := range honest {
 			g, ok := got[id]
-			if !ok || g.ID == nil || g.ID.String() != built[ci].spec.ID {
-				x.Violate("O4-validate-returns-other-mapping", "Validate maps descriptor %q to another credential than the builder (%s)", id, built[ci].spec.ID)
+			if !ok || !c12IsCredential(g, built[ci]) {
+				x.Violate("O4-validate-returns-other-mapping", "Validate maps descriptor %q to another credential than the builder (%s)", id, built[ci].label)
 			}
 		}
 		// Resolve is what consumers call afterwards
@@ -643,8 +713,8 @@ func c12RunCase(x *h.Ctx, c c12Case) {
 			x.Violate("O4-resolve-fails-after-validate", "Resolve fails on a submission Validate accepted: %v", rerr)
 		} else {
 			for id, ci := range honest {
-				if r, ok := res[id]; !ok || r.ID == nil || r.ID.String() != built[ci].spec.ID {
-					x.Violate("O4-resolve-returns-other-mapping", "Resolve maps descriptor %q to another credential than the builder (%s)", id, built[ci].spec.ID)
+				if r, ok := res[id]; !ok || !c12IsCredential(r, built[ci]) {
+					x.Violate("O4-resolve-returns-other-mapping", "Resolve maps descriptor %q to another credential than the builder (%s)", id, built[ci].label)
 				}
 			}
 		}
@@ -692,7 +762,7 @@ func c12RunCase(x *h.Ctx, c c12Case) {
 			}
 			ci := f.Cred % len(built)
 			merged[f.ID] = built[ci].vc
-			foreignDesc = append(foreignDesc, fmt.Sprintf("%q→%s", f.ID, built[ci].spec.ID))
+			foreignDesc = append(foreignDesc, fmt.Sprintf("%q→%s", f.ID, built[ci].label))
 			for di := range ref.Descriptors {
 				if sat[di][ci].ok {
 					x.Class("O6-foreign-credential-satisfies-a-descriptor")
@@ -793,7 +863,7 @@ func c12RunCase(x *h.Ctx, c c12Case) {
 			}
 			if st := sat[di][which]; !st.ok && !st.errOK {
 				x.Violate("O5-forged-accepted:credential-does-not-satisfy:"+opOrDup(entry.Id), "forgery %d (%s) accepted although entry %d maps descriptor %q to credential %s, which does not satisfy it\n%s",
-					fi, fg.Op, ei, entry.Id, built[which].spec.ID, c12MustJSON(x, forged.DescriptorMap))
+					fi, fg.Op, ei, entry.Id, built[which].label, c12MustJSON(x, forged.DescriptorMap))
 				continue
 			}
 			if !unambiguous || blockedByEarlierVP {
@@ -803,7 +873,7 @@ func c12RunCase(x *h.Ctx, c c12Case) {
 				x.Violate("O5-forged-accepted:surplus-descriptor:"+fg.Op, "forgery %d (%s) accepted although entry %d maps descriptor %q, which matching does not map\n%s", fi, fg.Op, ei, entry.Id, c12MustJSON(x, forged.DescriptorMap))
 			} else if ci != which {
 				x.Violate("O5-forged-accepted:wrong-credential:"+opOrDup(entry.Id), "forgery %d (%s) accepted although entry %d (descriptor %q, path %s) selects %s, not the credential matching selects (%s)\n%s",
-					fi, fg.Op, ei, entry.Id, c12PathStr(entry), built[which].spec.ID, built[ci].spec.ID, c12MustJSON(x, forged.DescriptorMap))
+					fi, fg.Op, ei, entry.Id, c12PathStr(entry), built[which].label, built[ci].label, c12MustJSON(x, forged.DescriptorMap))
 			}
 		}
 		if unambiguous && !blockedByEarlierVP {
@@ -1150,6 +1220,22 @@ func c12ResolveEntry(e InputDescriptorMappingObject, view any) (any, string) {
 		cur = v
 	}
 	return cur, "ok"
+}
+
+// c12IsCredential: is the parsed credential (possibly re-parsed out of an envelope) exactly the given wallet credential?
+// Compared by content: JWT by its compact form, JSON-LD by its decoded JSON. Never by id.
+func c12IsCredential(v vc.VerifiableCredential, b c12Built) bool {
+	if b.spec.Fmt == "jwt_vc" {
+		return v.Raw() == b.raw
+	}
+	if v.Format() != vc.JSONLDCredentialProofFormat {
+		return false
+	}
+	var got, want any
+	if json.Unmarshal([]byte(v.Raw()), &got) != nil || json.Unmarshal([]byte(b.raw), &want) != nil {
+		return false
+	}
+	return c12DeepEqualJSON(got, want)
 }
 
 // c12SameCredential: is the JSON value selected in the envelope exactly the given wallet credential?
